@@ -7,9 +7,9 @@ git apply --check "$SD/patch.diff" || { echo "PATCH DOES NOT APPLY"; exit 2; }
 git apply "$SD/patch.diff"
 /verif/tools/baseline.sh "$WT" > /tmp/seedval_suite.txt 2>&1; SUITE=$?
 cp "$SD/demo.rs" tests/demo.rs
-CARGO_NET_OFFLINE=true cargo test --offline --test demo > /tmp/seedval_demo_with.txt 2>&1; WITH=$?
+CARGO_NET_OFFLINE=true cargo test --offline $DEMO_ARGS --test demo > /tmp/seedval_demo_with.txt 2>&1; WITH=$?
 git checkout -q -- .
-CARGO_NET_OFFLINE=true cargo test --offline --test demo > /tmp/seedval_demo_without.txt 2>&1; WITHOUT=$?
+CARGO_NET_OFFLINE=true cargo test --offline $DEMO_ARGS --test demo > /tmp/seedval_demo_without.txt 2>&1; WITHOUT=$?
 rm -f tests/demo.rs
 echo "suite_with_change_rc=$SUITE ($(tail -1 /tmp/seedval_suite.txt)) demo_with_change_rc=$WITH demo_without_change_rc=$WITHOUT"
 [ $SUITE -eq 0 ] && [ $WITH -ne 0 ] && [ $WITHOUT -eq 0 ] && echo CONFIRMED || echo NOT-CONFIRMED
